@@ -36,5 +36,5 @@ def run(case):
     return res
 
 
-PROFILES = {"solve": Profile("solve", lambda: sc.scenarios(PROF), run, quick=5000, thorough=150000, timeout=120)}
+PROFILES = {"solve": Profile("solve", lambda: sc.scenarios(PROF), run, quick=15000, thorough=300000, timeout=120)}
 KNOWN = {}
